@@ -663,10 +663,19 @@ func (x *Exec) applyContract(st *State, fr *Frame, callee *ssa.Function, con *Co
 	if fr != nil && fr.parent == nil {
 		nm := funcName(callee)
 		st.ghost["called:"+nm] = "true"
+		if st.callVals == nil {
+			st.callVals = map[string]Val{}
+		}
 		for i, r := range rets {
-			if r.K == KErr || r.K == KInt || r.K == KBool {
-				st.ghost[fmt.Sprintf("callret:%s:%d", nm, i)] = r.T
-				st.ghost[fmt.Sprintf("callretk:%s:%d", nm, i)] = fmt.Sprint(int(r.K))
+			switch r.K {
+			case KErr, KInt, KBool, KFloat, KSlice, KPtr:
+				st.callVals[fmt.Sprintf("%s:%d", nm, i)] = r
+			}
+		}
+		for i, a := range args {
+			switch a.K {
+			case KErr, KInt, KBool, KFloat, KSlice, KPtr:
+				st.callVals[fmt.Sprintf("arg:%s:%d", nm, i)] = a
 			}
 		}
 	}
